@@ -44,6 +44,12 @@ type Contract struct {
 	Covers   []string // extra properties whose obligations (callee demands) arise inside this function
 	Promote  map[string][]string // callee-demand label -> further properties it is claimed under in this function
 	Hints    []*HintAt // lemma-instance hints (use_* only) assumed right after a call site
+	Asserts  []*AssertAt // obligations evaluated just before a call site
+}
+
+type AssertAt struct {
+	Site string
+	Cl   *Clause
 }
 
 type HintAt struct {
@@ -80,7 +86,7 @@ type SpecDB struct {
 }
 
 var clauseKeywords = map[string]bool{"func": true, "loop": true, "requires": true, "ensures": true, "modifies": true,
-	"sweep": true, "modular": true, "trusted": true, "invariant": true, "pure": true, "unroll": true, "names": true, "let": true, "end": true, "sums": true, "demands": true, "covers": true, "promote": true, "hint": true, "lemma": true, "prunepaths": true}
+	"sweep": true, "modular": true, "trusted": true, "invariant": true, "pure": true, "unroll": true, "names": true, "let": true, "end": true, "sums": true, "demands": true, "covers": true, "promote": true, "hint": true, "lemma": true, "prunepaths": true, "asserts": true}
 
 func ParseSpecs(lines []SpecLine) *SpecDB {
 	db := &SpecDB{Contracts: map[string]*Contract{}, Pures: map[string]*PureDef{}}
@@ -242,6 +248,20 @@ func ParseSpecs(lines []SpecLine) *SpecDB {
 				continue
 			}
 			cur.Hints = append(cur.Hints, &HintAt{Site: strings.TrimSpace(it.rest[:i]), Expr: e, Src: it.rest})
+		case "asserts":
+			// asserts <site> :: [props] label: expr  -- an obligation evaluated in the state just before the call at <site> (then assumed)
+			i := strings.Index(it.rest, "::")
+			if i < 0 || cur == nil {
+				errf(it, "asserts <site> :: [props] label: expr")
+				continue
+			}
+			cl, err := parseClause("asserts", it.rest[i+2:])
+			if err != nil {
+				errf(it, "asserts: %v", err)
+				continue
+			}
+			cl.File, cl.Line = it.File, it.Line
+			cur.Asserts = append(cur.Asserts, &AssertAt{Site: strings.TrimSpace(it.rest[:i]), Cl: cl})
 		case "modular":
 			cur.Modular = true
 		case "trusted":
